@@ -50,7 +50,7 @@ var properties = map[string]*propDef{
 		NotDecided:  "the first sentence as stated: equality of the two converters' outputs over all progressions is a relation between two computations over runtime values.",
 	},
 	"C06": {
-		Rules:       []string{"OWN", "TRACKADD", "PENDING", "SELECT", "TRACKCOUNT", "FLAGS", "WIRE"},
+		Rules:       []string{"OWN", "TRACKADD", "PENDING", "SELECT", "TRACKCOUNT", "OPMAP", "FLAGS", "WIRE"},
 		Technique:   techPath + ": ownership of *TrackOp, read-before-mutate ordering, selector range",
 		Explanation: "the premises of the invariant `track clock + pending = global clock`: a *TrackOp is never delivered twice (no Add inside a loop with an op created outside it); TrackSet.Add reads the op's delta before Track.Add rewrites it and adds it to every other track; the writer attaches the true elapsed time to every op, Close included; the selector sends metas to track 0 and the i-th note to i mod (N-1) + 1, N >= 1 enforced, selector and track set built from the same N; all N tracks are serialised; --track is a persistent flag visible on every write subcommand.",
 		NotDecided:  "the invariant itself as a statement about all histories (it would need an inductive proof over heap state); only the premises a hand proof uses are checked.",
@@ -145,7 +145,7 @@ var wireScope = map[string][]string{
 var otherScope = map[string]map[string][]string{
 	// the 4-byte limit of a delta time is a matter of file well-formedness (C08); C02 is stated below 2^28 ticks
 	"C02": {"TRACKCOUNT": {"!midix|delta"}},
-	"C06": {"TRACKCOUNT": {"!midix|delta"}},
+	"C06": {"TRACKCOUNT": {"!midix|delta"}, "OPMAP": {"midix.Close.Call", "midix.MIDIWriter.Close", "midix.TrackOp.Call", "midix.Track.Apply"}},
 	// a log line or any other print on stdout lands in front of the MIDI bytes when the file goes to stdout
 	"C08": {"IOLAYER": {"*|os.Stdout", "*|fmt.Print", "*|cobra.Out"}},
 	// the search over the interval table ranges over a map: it is deterministic only while exactly one row qualifies
